@@ -84,7 +84,7 @@ class Interp:
             o = self.st.heap[v.ref]
             if o.kind == "list":
                 return len(o.data) > 0
-            if o.kind == "dict":
+            if o.kind in ("dict", "adict"):
                 return len(o.data) > 0
             if o.kind == "slist":
                 return simp(zint(ropes.seq_len(o.data)) != 0)
@@ -121,7 +121,7 @@ class Interp:
             o = self.st.heap[v.ref]
             if o.kind in ("list", "slist"):
                 return "list"
-            if o.kind == "dict":
+            if o.kind in ("dict", "adict", "sdict"):
                 return "dict"
             return o.cls
         if isinstance(v, VExc):
@@ -474,6 +474,12 @@ class Interp:
                 return simp(z3.Or(*parts)) if parts else False
             if o.kind == "sdict":
                 return z3.Select(o.data["dom"], zint(self.as_int(item)))
+            if o.kind == "adict":
+                parts = [self.equal(k, item) for k, _ in o.data]
+                if any(p is True for p in parts):
+                    return True
+                ps = [zbool(p) for p in parts if p is not False]
+                return simp(z3.Or(*ps)) if ps else False
             if o.kind == "slist":
                 i = z3.Int(st.fresh_name("in_i"))
                 t = ropes.seq_term(st, o.data)
@@ -814,6 +820,8 @@ class Interp:
                 return self.dict_get(o, idx, fr, site)
             if o.kind == "sdict":
                 return self.sdict_get(o, idx, fr, site)
+            if o.kind == "adict":
+                return self.adict_get(o, idx, fr, site)
             if o.kind == "obj":
                 m = self.E.find_attr(o.cls, "__getitem__")
                 if m:
@@ -850,6 +858,22 @@ class Interp:
             if k == n - 1 or st.decide(zint(i) == k):
                 return items[k]
         raise PathEnd()
+
+    def adict_get(self, o, key, fr, site, default=None):
+        st = self.st
+        if fr.spec:
+            out = None
+            for k, x in reversed(o.data):
+                out = x if out is None else self.ite(zbool(self.equal(k, key)), x, out)
+            if out is None:
+                raise Unsupported("spec lookup in empty map")
+            return out
+        for k, x in o.data:
+            if st.decide(self.equal(k, key)):
+                return x
+        if default is not None:
+            return default
+        self.raise_py("KeyError", "symbolic key", site)
 
     def sdict_get(self, o, key, fr, site, default=None):
         """lookup in a symbolic int-keyed dict: domain predicate + one value object per key term"""
@@ -1017,7 +1041,7 @@ class Interp:
             o = st.heap[base.ref]
             if o.kind == "obj":
                 return self.get_field(base, name, fr, site)
-            return VFunc("%s.%s" % ({"slist": "list", "sdict": "dict"}.get(o.kind, o.kind), name), base)
+            return VFunc("%s.%s" % ({"slist": "list", "sdict": "dict", "adict": "dict"}.get(o.kind, o.kind), name), base)
         if isinstance(base, VSeq):
             return VFunc("%s.%s" % ("str" if base.pytype == "str" else "bytes", name), base)
         if isinstance(base, VModule):
@@ -1320,7 +1344,19 @@ class Interp:
         if isinstance(base, VRef):
             o = st.heap[base.ref]
             if o.kind == "dict":
-                o.data[self.hashable(idx)] = v
+                try:
+                    o.data[self.hashable(idx)] = v
+                    return
+                except Unsupported:
+                    # symbolic key: switch to an association list (small maps with symbolic keys)
+                    o.data = [(self.from_py(k), x) for k, x in o.data.items()]
+                    o.kind = "adict"
+            if o.kind == "adict":
+                for n, (k, x) in enumerate(o.data):
+                    if st.decide(self.equal(k, idx)):
+                        o.data[n] = (k, v)
+                        return
+                o.data.append((idx, v))
                 return
             if o.kind == "list":
                 if isinstance(idx, VInt) and is_conc(idx.t):
